@@ -85,6 +85,17 @@ def cvc5_check(smt2_text, produce_model=False, tlimit_s=None):
             pass
 
 
+def _assert_all(solver, exprs):
+    """solver.add(*exprs) without the per-expression coercion overhead of the high-level API (the path conditions are
+    lists of z3 Bool terms already; this is the hot spot of VC generation)"""
+    ctx_ref = solver.ctx.ref()
+    sol = solver.solver
+    for a in exprs:
+        if isinstance(a, bool):
+            a = z3.BoolVal(a)
+        z3.Z3_solver_assert(ctx_ref, sol, a.as_ast())
+
+
 _CACHE = {}
 
 
@@ -106,8 +117,7 @@ def feasible(pc, timeout_ms=2000):
 def _feasible(pc, timeout_ms=2000):
     s = z3.Solver()
     s.set('timeout', timeout_ms)
-    for a in pc:
-        s.add(a)
+    _assert_all(s, pc)
     t0 = time.time()
     r = s.check()
     STATS['feas']['n'] += 1
@@ -131,8 +141,7 @@ def entails(pc, goal, timeout_ms=2000):
 def _entails(pc, goal, timeout_ms=2000):
     s = z3.Solver()
     s.set('timeout', timeout_ms)
-    for a in pc:
-        s.add(a)
+    _assert_all(s, pc)
     s.add(z3.Not(goal))
     t0 = time.time()
     r = s.check()
@@ -177,7 +186,7 @@ class Ctx:
     def __init__(self, pc, timeout_ms=2000):
         self.s = z3.Solver()
         self.s.set('timeout', timeout_ms)
-        self.s.add(*[z3.BoolVal(p) if isinstance(p, bool) else p for p in pc])
+        _assert_all(self.s, pc)
         self.n = len(pc)
 
     def feasible_with(self, *extra):
